@@ -1,5 +1,6 @@
 import Bpmn.Driver.Eng
 import Bpmn.Gen.Engine
+import Bpmn.Spec.TokenGame
 /-! Driver for C01 (and the other engine-level families that compare requests / end events / variables):
 lock-step replay of the recorded run through the engine model at the extracted (faithful) configuration,
 and evaluation of the token-game specification (`Cfg.ideal`) on the implementation's history. -/
@@ -30,7 +31,12 @@ def judge (c : Case) : CaseResult := Id.run do
   -- the token game, with the inclusive join at its earliest or at its latest allowed release point
   let i0 := replay Cfg.ideal c
   let i1 := replay Cfg.idealLate c
-  let i := if good i1 && !(good i0) then i1 else i0
+  -- … or anywhere in between, decision by decision: the token game under the admissible policy that follows the
+  -- code's cohort wherever the cohort stays inside the allowed interval (Props/C01Conformance: a cause-free run of
+  -- the code configuration IS a run of this token game, and it can differ from both extreme variants)
+  let i2 := replayWith (Bpmn.Spec.TokenGame.start Bpmn.Spec.TokenGame.Join.cohortClamped)
+                       (Bpmn.Spec.TokenGame.answer Bpmn.Spec.TokenGame.Join.cohortClamped) c
+  let i := if good i0 then i0 else if good i1 then i1 else if good i2 then i2 else i0
   let implVars := (implFinalVars c).getD []
   let unknownReq (o : Option String) : Bool := (o.map (·.startsWith "answer to unknown request")).getD false
   -- livelock / blocked driver calls are failures of the implementation whatever the model says
